@@ -58,7 +58,7 @@ struct WorkerOut {
 }
 
 pub fn is_nontrivial(s: &dyn Scenario, t: &Trace) -> bool {
-    t.ops.len() >= 2 && t.ops.iter().any(|o| s.nontrivial_kind(o.k))
+    s.nontrivial(t)
 }
 
 pub fn run(s: &'static dyn Scenario, base_seed: u64, start: u64, runs: u64, jobs: usize, tier: Tier, want_transcript: bool) -> Summary {
